@@ -31,7 +31,7 @@ pub mod wal;
 
 pub use batch::{Batch, BatchRef, ShardInfo, ShardMeta, Update};
 pub use consolidate::{
-    consolidate, consolidate_to_current, filter_since, to_tuples, to_tuples_with_multiplicity,
+    consolidate, consolidate_to_current, filter_since, to_tuples, to_tuples_with_multiplicity, replay_to_current_set,
 };
 pub use wal::PersistWal;
 
